@@ -241,6 +241,24 @@ def scenario_own_vs_installed(repo, seed, tmpdir=None, extra=8):
     return sim, viols, None if installed else "snapshot was not installed between the two ticks"
 
 
+def scenario_restore_removal(repo, seed, tmpdir=None):
+    """The member set RESTORED from a snapshot is the one of the snapshot: a node removed before the snapshot position
+    is gone on a node that learns of the removal only through the snapshot (schedule of corr.c10_membership)."""
+    import random as _r
+    from harness.corr import c10_membership as m
+
+    class _Ctx(object):
+        pass
+    cx = _Ctx()
+    cx.repo = repo
+    c, v, note = m.directed_snapshot_removal(cx, _r.Random(seed))
+    out = []
+    for x in v:
+        if x["signature"] in (m.SIG_FOLD, m.SIG_AGREE):
+            out.append({"signature": "snapshot:restored-member-set-not-at-its-position", "what": x["what"]})
+    return c.sim, out, note
+
+
 def _adjust(before, sim, i):
     """The tick that performs the compaction first applies newly committed entries: the snapshot position is
     the applied index of THAT tick; recover it from the snapshot label only when it lies between the
@@ -275,7 +293,8 @@ def run(ctx):
             for name, fn in (("blocked", scenario_blocked), ("plain", scenario_plain),
                              ("members-pending", scenario_members),
                              ("members-applied", lambda r, s_, t: scenario_members(r, s_, t, committed=True)),
-                             ("own-vs-installed", scenario_own_vs_installed)):
+                             ("own-vs-installed", scenario_own_vs_installed),
+                             ("restore-removal", scenario_restore_removal)):
                 tmp = ctx.tmpdir() if mode == "file" else None
                 sim, v, note = fn(ctx.repo, sd, tmp)
                 cases += 1
@@ -305,7 +324,7 @@ def run(ctx):
 def replay(ctx, violation):
     rp = violation.get("replay", {})
     fns = {"blocked": scenario_blocked, "plain": scenario_plain, "members-pending": scenario_members,
-           "own-vs-installed": scenario_own_vs_installed,
+           "own-vs-installed": scenario_own_vs_installed, "restore-removal": scenario_restore_removal,
            "members-applied": lambda r, s_, t: scenario_members(r, s_, t, committed=True)}
     fn = fns.get(rp.get("scenario"), scenario_plain)
     tmp = ctx.tmpdir() if rp.get("mode") == "file" else None
